@@ -117,6 +117,10 @@ func checkC02(r *Run) {
 					}
 				}
 			case *ast.CallExpr:
+				// order.UintN(v) indexes v[N/8-1]
+				if ck := calleeKey(info, v); strings.Contains(ck, "encoding/binary.") && (strings.Contains(ck, ".Uint") || strings.Contains(ck, ".PutUint")) {
+					sites = append(sites, riskSite{fi, v, "binary", norm(v)})
+				}
 				if id, ok := v.Fun.(*ast.Ident); ok {
 					if _, isB := info.Uses[id].(*types.Builtin); isB {
 						switch id.Name {
@@ -159,6 +163,15 @@ func checkC02(r *Run) {
 		}
 	}
 	r.stat("r1:functions in the receive slice", len(sliceFuncs))
+	// local facts with guards rendered through expression functions (has(n) ≡ len(data) >= n)
+	var localFuncs []*FuncInfo
+	localFuncs = append(localFuncs, sliceFuncs...)
+	for i := range lits {
+		if !slice[litOwner[i]] {
+			localFuncs = append(localFuncs, litOwner[i])
+		}
+	}
+	bp := &boundsProver{l: r.L, info: info, db: buildLocalDB(r.L, localFuncs), res: map[*FuncInfo]*resolver{}}
 	discharged := map[string]bool{} // file:line of guard-discharged bounds constructs (for the compiler cross-reference)
 	stateAt := func(fi *FuncInfo, n ast.Node) *HState {
 		if st, ok := db.Exprs[n]; ok {
@@ -186,6 +199,7 @@ func checkC02(r *Run) {
 		pos := s.node.Pos()
 		ok, why := false, ""
 		st := stateAt(s.fn, s.node)
+		_ = st
 		switch s.kind {
 		case "index":
 			ix := s.node.(*ast.IndexExpr)
@@ -199,15 +213,11 @@ func checkC02(r *Run) {
 					}
 				}
 			}
-			if !ok && s.fn.Key == "p9.buffer.Read8" && norm(ix.Index) == "0" && st != nil && st.holds("ok", true) {
-				ok, why = true, "v[0] after consume(1) succeeded"
-				discharged[lineKey(r, pos)] = true
-			}
-			if !ok && strings.HasPrefix(s.fn.Key, "p9.buffer.ReadString") {
-				// bs[i] with i < int(l) and bs = make([]byte, l)
-				if st != nil && (st.holds("int(l) > i", true) || st.holds("int(b.Read16()) > i", true)) {
-					ok, why = true, "bs[i] under i < int(l), len(bs) = l"
-					discharged[lineKey(r, pos)] = true
+			if !ok {
+				if lst := bp.db.Exprs[s.node]; lst != nil {
+					if ok, why = bp.index(s.fn, ix, lst); ok {
+						discharged[lineKey(r, pos)] = true
+					}
 				}
 			}
 		case "slice":
@@ -228,15 +238,11 @@ func checkC02(r *Run) {
 				ok, why = true, "full slice"
 			case isArr && sl.Low == nil && hi0, sl.Low == nil && hi0:
 				ok, why = true, "[:0] never exceeds the capacity"
-			case s.fn.Key == "p9.buffer.consume":
-				if st != nil && st.holds("b.has(n)", true) {
-					ok, why = true, "dominated by has(n)"
-					discharged[lineKey(r, pos)] = true
-				}
-			case s.fn.Key == "p9.recv" && s.text == "data[:size]":
-				if st != nil && (st.holds("size > len(data)", false) || sizeFitsFact(st)) {
-					ok, why = true, "under size <= len(data)"
-					discharged[lineKey(r, pos)] = true
+			default:
+				if lst := bp.db.Exprs[s.node]; lst != nil {
+					if ok, why = bp.slice(s.fn, sl, lst); ok {
+						discharged[lineKey(r, pos)] = true
+					}
 				}
 			}
 		case "assert":
@@ -262,14 +268,24 @@ func checkC02(r *Run) {
 			c := s.node.(*ast.CallExpr)
 			sz := norm(c.Args[1])
 			switch {
-			case s.fn.Key == "p9.buffer.ReadString":
-				if st != nil && (st.holds("b.has(int(l))", true) || st.holds("b.has(int(b.Read16()))", true)) {
-					ok, why = true, "u16 length guarded by has(): at most the bytes present in the frame"
-				}
 			case s.fn.Key == "p9.recv":
 				ok, why = true, "size is "+sz+": bounded under r2"
 			case s.fn.Key == "p9.buffer.append":
 				ok, why = true, "encoder side (not on the receive path)"
+			default:
+				// a length taken from the frame must be covered by the bytes actually present
+				for _, ls := range bp.db.ByFunc[s.fn] {
+					if ls.Call == c {
+						ok, why = bp.makeBounded(s.fn, c, ls.St)
+					}
+				}
+			}
+		case "binary":
+			c := s.node.(*ast.CallExpr)
+			for _, ls := range bp.db.ByFunc[s.fn] {
+				if ls.Call == c {
+					ok, why = bp.binaryWidth(s.fn, c, ls.St)
+				}
 			}
 		case "panic":
 			why = "explicit panic in the receive slice"
@@ -288,8 +304,9 @@ func checkC02(r *Run) {
 	r.floor("r1", "risky constructs enumerated", len(sites), 12)
 	// consume is only called with small constants or a guarded u16
 	for _, s := range db.Calls["p9.buffer.consume"] {
-		_, isC := constInt(info, s.Call.Args[0])
-		r.check(isC, "r1", s.Root.Key+": consume("+norm(s.Call.Args[0])+")", s.Call.Pos(), "constant width", "consume is called with a non-constant (possibly negative) length")
+		v, isC := constInt(info, s.Call.Args[0])
+		okLen := isC && v >= 0 || bp.nonNegative(s.Root, s.Call.Args[0], 0)
+		r.check(okLen, "r1", s.Root.Key+": consume("+norm(s.Call.Args[0])+")", s.Call.Pos(), "constant width or a length that cannot be negative", "consume is called with a length that may be negative (slice bounds out of range)")
 	}
 
 	// ---- r2: bounded allocation ----
@@ -314,19 +331,21 @@ func checkC02(r *Run) {
 		return a && b && c, fmt.Sprintf("size ≥ headerLength: %v, size ≤ 4 MiB: %v, size ≤ msize: %v", a, b, c)
 	}
 	nAlloc := 0
-	for _, s := range db.ByFunc[recv] {
+	// sites in recv itself and in private helpers analysed in place from it
+	for _, s := range append(append([]*Site{}, db.ByFunc[recv]...), db.Deep[recv]...) {
 		if s.Call == nil || s.St.Dead {
 			continue
 		}
 		isAlloc := false
 		what := ""
+		var sizeArg ast.Expr
 		if id, ok := s.Call.Fun.(*ast.Ident); ok && id.Name == "make" && len(s.Call.Args) >= 2 {
 			if _, isC := constInt(info, s.Call.Args[1]); !isC {
-				isAlloc, what = true, "make(…, "+norm(s.Call.Args[1])+")"
+				isAlloc, what, sizeArg = true, "make(…, "+nospace(s.Res.str(s.Call.Args[1]))+")", s.Call.Args[1]
 			}
 		}
 		if id, ok := s.Call.Fun.(*ast.Ident); ok && id.Name == "appendBuffer" {
-			isAlloc, what = true, "appendBuffer("+norm(s.Call.Args[0])+")"
+			isAlloc, what, sizeArg = true, "appendBuffer("+nospace(s.Res.str(s.Call.Args[0]))+")", s.Call.Args[0]
 		}
 		if s.Callee == "io.LimitReader" || s.Callee == "vecnet.Buffers.ReadFrom" {
 			isAlloc, what = true, s.Callee
@@ -335,15 +354,24 @@ func checkC02(r *Run) {
 			continue
 		}
 		// the make inside appendBuffer's literal is judged at appendBuffer's call sites
-		if containsFuncLit(r.L, s.Call, recv) {
+		if len(s.Inl) == 0 && containsFuncLit(r.L, s.Call, recv) {
 			continue
 		}
 		nAlloc++
 		ok, why := boundFacts(s.St)
-		if strings.Contains(what, "remaining-fixedSize") || strings.Contains(what, "fixedSize") && strings.Contains(what, "make") {
-			g := s.St.holds("fixedSize > remaining", false) || s.St.holds(res.str(ast.NewIdent("fixedSize"))+" > remaining", false) || anyFact(s.St, " > "+sizeN+" - headerLength", false)
-			ok = ok && g
-			why += fmt.Sprintf(", fixedSize ≤ remaining: %v", g)
+		// a length computed as a difference of unsigned values must not wrap: a − b needs b ≤ a
+		for e := unparen(sizeArg); e != nil; {
+			if c, isCall := e.(*ast.CallExpr); isCall && len(c.Args) == 1 && info.Types[c.Fun].IsType() {
+				e = unparen(c.Args[0]) // conversion
+				continue
+			}
+			if be, isBin := e.(*ast.BinaryExpr); isBin && be.Op == token.SUB {
+				a, b := s.Res.str(be.X), s.Res.str(be.Y)
+				g := s.St.holds(b+" > "+a, false)
+				ok = ok && g
+				why += fmt.Sprintf(", %s ≤ %s: %v", nospace(b), nospace(a), g)
+			}
+			break
 		}
 		r.check(ok, "r2", "recv: "+what+" is bounded by the negotiated size", s.Call.Pos(), why,
 			"an allocation/read length in recv is not dominated by the checks that end the connection for size < 7 or size > min(4 MiB, msize) ("+why+"): a hostile size field makes the receiver buffer more than msize (up to 4 GiB)")
@@ -352,8 +380,12 @@ func checkC02(r *Run) {
 	// remaining = size - headerLength
 	okRem := false
 	ast.Inspect(recv.Decl.Body, func(n ast.Node) bool {
-		if as, ok := n.(*ast.AssignStmt); ok && len(as.Lhs) == 1 && norm(as.Lhs[0]) == "remaining" && norm(as.Rhs[0]) == "size-headerLength" {
-			okRem = true
+		if as, ok := n.(*ast.AssignStmt); ok && len(as.Lhs) == 1 && len(as.Rhs) == 1 {
+			if be, ok := unparen(as.Rhs[0]).(*ast.BinaryExpr); ok && be.Op == token.SUB && res.str(be.X) == sizeN {
+				if c, isC := constInt(info, be.Y); isC && c == 7 {
+					okRem = true
+				}
+			}
 		}
 		return true
 	})
@@ -374,6 +406,62 @@ func checkC02(r *Run) {
 	}
 
 	// ---- r3 / r4: exits of recv ----
+	// "The frame's body has been taken off the stream" as a must-analysis (helpers analysed in
+	// place): established by the vectored read of the body, by a drain of exactly the body
+	// length into Discard, and along the edges on which nothing is left to read (body length
+	// not > 0, no vector queued).
+	remN := ""
+	ast.Inspect(recv.Decl.Body, func(n ast.Node) bool {
+		if as, ok := n.(*ast.AssignStmt); ok && len(as.Lhs) == 1 && len(as.Rhs) == 1 {
+			if be, ok := unparen(as.Rhs[0]).(*ast.BinaryExpr); ok && be.Op == token.SUB && res.str(be.X) == sizeN {
+				if c, isC := constInt(info, be.Y); isC && c == 7 {
+					remN = nospace(res.str(as.Lhs[0]))
+				}
+			}
+		}
+		return true
+	})
+	isDiscard := func(e ast.Expr) bool {
+		d := nospace(r.L.str(e))
+		return d == "ioutil.Discard" || d == "io.Discard"
+	}
+	consumedAt, _ := mustFlag(db, recv, func(n ast.Node, fres *resolver) (bool, bool) {
+		done := false
+		inspectNoLit(n, func(m ast.Node) {
+			c, ok := m.(*ast.CallExpr)
+			if !ok {
+				return
+			}
+			switch calleeKey(info, c) {
+			case "vecnet.Buffers.ReadFrom":
+				done = true
+			case "io.Copy":
+				if len(c.Args) == 2 && isDiscard(c.Args[0]) {
+					if lr, ok := unparen(c.Args[1]).(*ast.CallExpr); ok && calleeKey(info, lr) == "io.LimitReader" && len(lr.Args) == 2 && nospace(fres.str(lr.Args[1])) == "int64("+remN+")" {
+						done = true
+					}
+				}
+			case "io.CopyN":
+				if len(c.Args) == 3 && isDiscard(c.Args[0]) && nospace(fres.str(c.Args[2])) == "int64("+remN+")" {
+					done = true
+				}
+			}
+		})
+		return done, done
+	}, func(key string, truth bool) bool {
+		k := nospace(key)
+		if remN != "" && (k == remN+">0" && !truth || (k == remN+"==0" || k == "0=="+remN) && truth) {
+			return true // nothing left to drain
+		}
+		if strings.HasPrefix(k, "len(") && strings.HasSuffix(k, ")>0") && !truth {
+			// no vector queued: nothing had to be read
+			inner := k[4 : len(k)-3]
+			if obj := objByName(info, recv, inner); obj != nil && strings.HasSuffix(obj.Type().String(), "vecnet.Buffers") {
+				return true
+			}
+		}
+		return false
+	})
 	nEx := 0
 	for _, ex := range db.Exits[recv] {
 		if ex.Fn != ast.Node(recv.Decl) || ex.Ret == nil || ex.St.Dead || len(ex.Ret.Results) != 3 {
@@ -402,24 +490,10 @@ func checkC02(r *Run) {
 			r.fail("r3", key, ex.Ret.Pos(), "non-connection exit before the header was read")
 			continue
 		}
-		// body consumed: complete read, or drain under remaining > 0 right before the return
-		if ex.St.Must["vecnet.Buffers.ReadFrom"] {
-			r.ok("r3", key, ex.Ret.Pos(), "after the complete vectored read of the body")
-			continue
-		}
-		if drainPrecedes(r, info, ex.Ret) {
-			r.ok("r3", key, ex.Ret.Pos(), "the body is drained with io.Copy(Discard, LimitReader(r, remaining)) under remaining > 0")
-			continue
-		}
-		// nothing to read: no vector was queued
-		nothing := true
-		for _, p := range ex.St.Paths {
-			if v, ok := p["len(vecs) > 0"]; !ok || v {
-				nothing = false
-			}
-		}
-		if nothing || ex.St.May["vecnet.Buffers.ReadFrom"] {
-			r.ok("r3", key, ex.Ret.Pos(), "reached after the read of the (possibly empty) body")
+		// body consumed on every path to this exit: complete read, drain of exactly the body
+		// length, or nothing left to read
+		if consumedAt[ex.Ret] {
+			r.ok("r3", key, ex.Ret.Pos(), "on every path the body was read (ReadFrom), drained (Copy to Discard of exactly "+remN+" bytes) or empty")
 			continue
 		}
 		r.fail("r3", key, ex.Ret.Pos(), "recv returns a non-connection error without having consumed the frame's body: the next recv parses a header from the middle of this frame (lost synchronisation)")
@@ -447,12 +521,20 @@ func checkC02(r *Run) {
 	r.check(nw == 1 && okOnlyTrue, "r6", "the overrun flag is only ever set", token.NoPos, "single store overflow = true in markOverrun", "the overrun flag is written elsewhere or cleared: a decoder overrun could be forgotten")
 	// consume marks overrun on failure
 	if cf := r.L.Func("p9", "buffer.consume"); cf != nil {
-		okMark := false
-		for _, s := range db.ByFunc[cf] {
-			if s.Callee == "p9.buffer.markOverrun" && s.St.holds("b.has(n)", false) {
-				okMark = true
+		// every exit that reports failure (second result false) has marked the overrun
+		okMark, nFail := true, 0
+		for _, ex := range db.Exits[cf] {
+			if ex.Ret == nil || len(ex.Ret.Results) != 2 || ex.St.Dead {
+				continue
+			}
+			if bv := constValue(info, ex.Ret.Results[1]); bv != nil && bv.String() == "false" {
+				nFail++
+				if !ex.St.Must["p9.buffer.markOverrun"] {
+					okMark = false
+				}
 			}
 		}
+		okMark = okMark && nFail > 0
 		r.check(okMark, "r6", "consume records an overrun", cf.Decl.Pos(), "!has(n) → markOverrun", "a failed consume does not mark the buffer as overrun")
 	}
 	okChk := false
@@ -487,46 +569,6 @@ func containsFuncLit(l *Loaded, call ast.Node, fi *FuncInfo) bool {
 
 // drainPrecedes: the statement before ret in its block is
 // if remaining > 0 { _, _ = io.Copy(io.Discard|ioutil.Discard, io.LimitReader(r, int64(remaining))) }  (or io.CopyN).
-func drainPrecedes(r *Run, info *types.Info, ret *ast.ReturnStmt) bool {
-	blk, ok := r.L.parent(ret).(*ast.BlockStmt)
-	if !ok {
-		return false
-	}
-	var prev ast.Stmt
-	for i, s := range blk.List {
-		if s == ast.Stmt(ret) && i > 0 {
-			prev = blk.List[i-1]
-		}
-	}
-	ifs, ok := prev.(*ast.IfStmt)
-	if !ok || strings.ReplaceAll(r.L.str(ifs.Cond), " ", "") != "remaining>0" {
-		return false
-	}
-	found := false
-	ast.Inspect(ifs.Body, func(n ast.Node) bool {
-		c, ok := n.(*ast.CallExpr)
-		if !ok {
-			return true
-		}
-		switch calleeKey(info, c) {
-		case "io.Copy":
-			if len(c.Args) == 2 {
-				d := strings.ReplaceAll(r.L.str(c.Args[0]), " ", "")
-				if lr, ok := unparen(c.Args[1]).(*ast.CallExpr); ok && calleeKey(info, lr) == "io.LimitReader" && len(lr.Args) == 2 &&
-					(d == "ioutil.Discard" || d == "io.Discard") && strings.ReplaceAll(r.L.str(lr.Args[1]), " ", "") == "int64(remaining)" {
-					found = true
-				}
-			}
-		case "io.CopyN":
-			if len(c.Args) == 3 && strings.ReplaceAll(r.L.str(c.Args[2]), " ", "") == "int64(remaining)" {
-				found = true
-			}
-		}
-		return true
-	})
-	return found
-}
-
 // poolSuppliesByteSlicePtr: dataPool.New returns *[]byte and every Put on it passes a *[]byte.
 func poolSuppliesByteSlicePtr(r *Run, info *types.Info) (bool, string) {
 	p9 := r.L.Pkg("p9")
@@ -697,24 +739,4 @@ func c02CompilerCrossRef(r *Run, sliceFuncs []*FuncInfo, discharged map[string]b
 	r.stat("r1:compiler unproven bounds checks in package p9", total)
 	r.stat("r1:of which inside the receive slice", inSlice)
 	r.note("compiler cross-reference: go build -gcflags='-l -d=ssa/check_bce/debug=1' ./p9 reported %d bounds checks it could not eliminate, %d inside the receive slice", total, inSlice)
-}
-
-// sizeFitsFact: every path carries "size… > len(…)" = false (the size parameter of the literal is
-// rendered with an ordinal because it shadows recv's size variable).
-func sizeFitsFact(st *HState) bool {
-	if st.Dead || len(st.Paths) == 0 {
-		return false
-	}
-	for _, p := range st.Paths {
-		ok := false
-		for k, v := range p {
-			if !v && strings.HasPrefix(k, "size") && strings.Contains(k, " > len(") {
-				ok = true
-			}
-		}
-		if !ok {
-			return false
-		}
-	}
-	return true
 }
